@@ -227,6 +227,71 @@ void sched_wake_all(const void *key) {
     for (int i = 0; i < S.n; i++) if (S.t[i].state == TS_BLOCKED && S.t[i].blocked_on == key) { S.t[i].state = TS_RUNNABLE; S.t[i].blocked_on = nullptr; }
 }
 
+// read-write locks and spin locks: state kept in the caller's object (a static initialiser is all zero); a spin lock is a 4-byte
+// object and is used as a writer-only lock: owner + 1 in its single word
+struct SimRw { uint32_t magic; int32_t writer; uint64_t readers; };   // readers: bit per simulated thread
+#define RW_MAGIC 0x52774c6bu
+int sched_rw_init(void *rw, size_t size) {
+    memset(rw, 0, size);
+    if (size >= sizeof(SimRw)) { SimRw *s = (SimRw *)rw; s->magic = RW_MAGIC; s->writer = -1; s->readers = 0; }
+    sim_event("rwlock_init").a = (long)size;
+    return 0;
+}
+static bool rw_thread_alive(int t) { return G.multi && t >= 0 && t < S.n && S.t[t].state != TS_GONE && S.t[t].state != TS_DONE; }
+int sched_rw_lock(void *rw, bool write, bool try_only) {
+    sim_step();
+    if (!try_only) sched_point(SP_LOCK_PRE);
+    int me = t_thr;
+    SimRw local; SimRw *s;
+    int32_t *spin = nullptr;
+    // spin locks are told apart by the caller (size 4): encoded by passing the object through sched_rw_init(size 4) -> all zero; we cannot
+    // see the size here, so the seam passes spin locks with the low bit of the pointer set
+    if ((uintptr_t)rw & 1) { spin = (int32_t *)((uintptr_t)rw & ~(uintptr_t)1); s = &local; s->magic = RW_MAGIC; s->writer = *spin - 1; s->readers = 0; }
+    else { s = (SimRw *)rw; if (s->magic != RW_MAGIC) { s->magic = RW_MAGIC; s->writer = -1; s->readers = 0; } }
+    const void *key = spin ? (void *)spin : rw;
+    for (;;) {
+        if (spin) s->writer = *spin - 1;
+        bool mine_r = !spin && me < 64 && (s->readers >> me & 1);
+        bool free_for_me = write ? (s->writer == -1 && s->readers == 0) : (s->writer == -1);
+        if (free_for_me) break;
+        if (try_only) return EBUSY;
+        if (s->writer == me || (write && mine_r)) sim_abort("deadlock", "thread locks a read-write or spin lock it already holds");
+        G.counters["blocked-on-mutex"]++; S.blocked_events++;
+        bool someone = false;
+        if (s->writer != -1) someone = rw_thread_alive(s->writer);
+        for (int t = 0; t < 64 && !someone; t++) if ((s->readers >> t & 1) && rw_thread_alive(t)) someone = true;
+        if (!someone) sim_abort("deadlock", "lock is held by a thread that does not exist in this process (fork) or has finished");
+        S.t[me].state = TS_BLOCKED; S.t[me].blocked_on = key;
+        int next = choose(me);
+        if (next < 0) sim_abort("deadlock", "all threads blocked on a read-write or spin lock");
+        switch_to(me, next);
+    }
+    if (spin) *spin = me + 1;
+    else if (write) s->writer = me; else if (me < 64) s->readers |= (uint64_t)1 << me;
+    // happens-before as for a real read-write lock: a reader synchronises with earlier writers only, a writer with everybody before it
+    if (__tsan_acquire) { __tsan_acquire((void *)key); if (write && !spin) __tsan_acquire((char *)key + 1); }
+    if (!try_only) sched_point(SP_LOCK_POST);
+    return 0;
+}
+int sched_rw_unlock(void *rw) {
+    sim_step();
+    int me = t_thr;
+    int32_t *spin = ((uintptr_t)rw & 1) ? (int32_t *)((uintptr_t)rw & ~(uintptr_t)1) : nullptr;
+    const void *key = spin ? (void *)spin : rw;
+    sched_point(SP_UNLOCK_PRE);
+    if (spin) { if (*spin != me + 1) { sim_event("unlock_not_owner"); return EPERM; } if (__tsan_release) __tsan_release((void *)key); *spin = 0; }
+    else {
+        SimRw *s = (SimRw *)rw; if (s->magic != RW_MAGIC) { s->magic = RW_MAGIC; s->writer = -1; s->readers = 0; }
+        if (__tsan_release) __tsan_release(s->writer == me ? (void *)key : (void *)((char *)key + 1));
+        if (s->writer == me) s->writer = -1;
+        else if (me < 64 && (s->readers >> me & 1)) s->readers &= ~((uint64_t)1 << me);
+        else { sim_event("unlock_not_owner"); return EPERM; }
+    }
+    if (G.multi) for (int i = 0; i < S.n; i++) if (S.t[i].state == TS_BLOCKED && S.t[i].blocked_on == key) { S.t[i].state = TS_RUNNABLE; S.t[i].blocked_on = nullptr; }
+    sched_point(SP_UNLOCK_POST);
+    return 0;
+}
+
 struct SimOnce { int32_t state; };   // 0 new, 1 running, 2 done (PTHREAD_ONCE_INIT is 0)
 int sched_once(pthread_once_t *o, void (*fn)()) {
     SimOnce *s = (SimOnce *)o;
